@@ -244,6 +244,33 @@ def run_band(W, cfg):
     for os_adv in ((1, 2, 3) if cfg['scales'] == 'scalar' else ()):
         adv = lt.scratch_shape(lam, dx, (du[0] * os_adv, du[1] * os_adv), f, os_adv)
         W.ob_true(f'advertised scratch shape = fft grid (oversample {os_adv})', tuple(int(x) for x in adv) == (Nr, Nc))
+    if cfg['scales'] == 'scalar':
+        # a band given as a list: the buffer is sized for the longest wavelength wherever it stands in the list
+        third, half_ = W.const('1/3'), W.const('1/2')
+        for nm, band in (('longest first', [lam, lam * half_]), ('longest last', [lam * half_, lam]), ('unsorted', [lam * half_, lam, lam * third])):
+            advb = lt.scratch_shape(band, dx, du, f, 1)
+            W.ob_true(f'advertised scratch shape for a list of wavelengths ({nm}) = grid of the longest', tuple(int(x) for x in advb) == (Nr, Nc))
+
+        def two_systems():
+            # the same sampling and wavelength with another focal length, later in the same process: its own grid, its own result
+            import numpy as real
+            amp = real.array([[1.0, 2.0], [3.0, 4.0]])
+            for fa, fb in ((4.0, 8.0), (8.0, 4.0)):
+                for fl in (fa, fb):
+                    n_ = int(fl)
+                    if tuple(int(x) for x in lt.scratch_shape(1.0, 1.0, 1.0, fl, 1)) != (n_, n_):
+                        return False
+                    wv = lt.Wavefront(1.0) * lt.Pupil(amplitude=amp, pixelscale=1.0, focal_length=fl)
+                    of = lt.propagate_fft(wv, pixelscale=1.0, oversample=1)
+                    od = lt.propagate_dft(lt.Wavefront(1.0) * lt.Pupil(amplitude=amp, pixelscale=1.0, focal_length=fl), pixelscale=1.0, shape=(n_, n_), oversample=1)
+                    if of.field.shape != (n_, n_) or not real.allclose(of.field, od.field, rtol=1e-9, atol=1e-12):
+                        return False
+                    buf = real.zeros((n_, n_), dtype=complex)
+                    os_ = lt.propagate_fft(lt.Wavefront(1.0) * lt.Pupil(amplitude=amp, pixelscale=1.0, focal_length=fl), pixelscale=1.0, oversample=1, scratch=buf)
+                    if not real.allclose(os_.field, od.field, rtol=1e-9, atol=1e-12):
+                        return False
+            return True
+        W.ob_concrete('two systems with equal sampling and wavelength but focal lengths 4 and 8, one after the other: each gets its own grid, scratch size and field', two_systems)
     pupil = lt.Pupil(amplitude=A, pixelscale=dx, focal_length=f, mask=rnp.ones((nr, nc), dtype=int))
     w = lt.Wavefront(lam) * pupil
     o = lt.propagate_fft(w, pixelscale=du, oversample=1)
